@@ -65,6 +65,9 @@ structure Store where
   rows : List Row := []
   nextPk : Nat := 0
   validated : List Nat := []
+  /-- whether this node's `Verifier.VerifyVP` can answer right now (DID resolution / verifier outage = `false`):
+      the verdict of a call is the presentation's verdict AND this flag -/
+  verifierUp : Bool := true
   deriving Repr, Inhabited
 
 def Store.isValidated (s : Store) (r : Row) : Bool := s.validated.contains r.pk
@@ -173,7 +176,7 @@ def verify (d : Def) (s : Store) (now : Nat) (side : Side) (vp : VP) : Res Unit 
         match (if vp.retraction then validateRetraction s subj vp else validateRegistration exp vp) with
         | .err e => .err e
         | .panic p => .panic p
-        | .ok () => if vp.verdict side then .ok () else .err "verify"
+        | .ok () => if vp.verdict side && s.verifierUp then .ok () else .err "verify"
 
 /-- `Module.Register` on the node that serves the list -/
 def register (d : Def) (s : Store) (now fresh : Nat) (vp : VP) : Store × Res Unit :=
@@ -255,6 +258,7 @@ inductive Ev where
   | pollA
   | pollB (perm : List VP → List VP)
   | validate
+  | clientVerifier (up : Bool)   -- the client node's verifier goes down / comes back
 
 /-- outcome class of the last operation (what the harness compares) -/
 abbrev Out := Res Unit
@@ -282,6 +286,7 @@ def step (cfg : Cfg) (d : Def) (w : World) : Ev → World × Out
       let (c', ctr', r) := clientApply cfg d w.C w.t w.ctr seed ts (perm (rows.map (·.vp)))
       ({ w with C := c', ctr := ctr', pending := none }, r)
   | .validate => ({ w with C := clientValidate d w.C w.t }, .ok ())
+  | .clientVerifier up => ({ w with C := { w.C with verifierUp := up } }, .ok ())
 
 def run (cfg : Cfg) (d : Def) : World → List Ev → World
   | w, [] => w
